@@ -188,3 +188,21 @@ func verifNarrow[T any](v T) T { return v }
 func verifFairSelect(on bool) {}
 
 func verifGuardedBy(cell, mu interface{}, name string) {}
+
+// verifPar: natively the two operations run in two goroutines (under the race detector in race
+// replays); panics inside them are contained.
+func verifPar(a, b func()) {
+	done := make(chan struct{}, 2)
+	run := func(f func()) {
+		defer func() { recover(); done <- struct{}{} }()
+		f()
+	}
+	go run(a)
+	go run(b)
+	for i := 0; i < 2; i++ {
+		select {
+		case <-done:
+		case <-time.After(3 * time.Second):
+		}
+	}
+}
